@@ -72,6 +72,7 @@ def build(tier, seed):
         from bounded import c02
         return plumbing.include_before_every_statement(PROP, c02.include_and_doc_layouts) + plumbing.doc_lines_before_masking(PROP, c02.include_and_doc_layouts)
     tasks.append(Task(f"{PROP}.S.layout", PROP, "FortranReader.__next__ / FortranContainer.__init__", _layout))
+    tasks.append(Task(f"{PROP}.S.placeholders", PROP, "QUOTES_RE.sub call sites", lambda: __import__("contracts.resub", fromlist=["x"]).placeholder_obligations(PROP, replay=lambda: __import__("bounded.c02", fromlist=["x"]).parser_literal_cases())))
     tasks.append(Task(f"{PROP}.S.literal_reinsertion", PROP, "line_to_variables",
                       lambda: __import__("contracts.declarations", fromlist=["x"]).literal_reinsertion_is_last(PROP)))
     tasks.append(Task(f"{PROP}.B.QUOTES_RE", PROP, "ford.sourceform.QUOTES_RE", lambda: rx_lex.quotes_re_obligations(PROP)))
